@@ -1,30 +1,31 @@
 (* C18 - structured event data operations are lossless.
    Statements only; each closed by [exact] of a lemma from State/Data_proofs.v.
 
-   [gen mx b d] = the pieces list(data_split(d, b)) (mx = data_generator's MAX_ITER = 1000),
-   [merge_all] = data_merge of the pieces, [uniform n d] = every array in d has n rows (one sample),
-   [has_leaf d] = there is an array, [tuples_ok d] = no EMPTY TUPLE anywhere (empty dicts / lists
-   are allowed), [nbatches n b] = number of batches of n rows in steps of b (= ceil(n/b)). *)
+   [data_split mx b d] = the pieces list(data_split(d, b)) (mx = data_generator's MAX_ITER = 1000,
+   used only when d holds no array), [merge_all] = data_merge of the pieces, [uniform n d] = every
+   array in d has n rows (one sample), [has_leaf d] = there is an array, [nbatches n b] = number of
+   batches of n rows in steps of b (= ceil(n/b)). *)
 From Coq Require Import ZArith List Bool Arith.
 From TFV Require Import State.Data State.Data_proofs.
 Import ListNotations.
 
-(* merge (split b d) = d: every tree (any nesting, empty dicts / lists anywhere), every batch size
-   b > 0 - 1, dividing, non-dividing, larger than the sample -, every sample size n > 0. *)
+(* merge (split b d) = d: every tree (any nesting; empty dicts / lists / tuples anywhere), every
+   batch size b > 0 - 1, dividing, non-dividing, larger than the sample -, every sample size n > 0. *)
 Theorem C18_merge_split_id :
   forall mx b n d,
-    0 < b -> 0 < n -> uniform n d -> has_leaf d = true -> tuples_ok d = true -> nbatches n b <= mx ->
-    merge_all (gen mx b d) = Some d.
+    0 < b -> 0 < n -> uniform n d -> has_leaf d = true ->
+    merge_all (data_split mx b d) = Some d.
 Proof. exact merge_split_id. Qed.
 Print Assumptions C18_merge_split_id.
 
-(* no empty container at all: no MAX_ITER condition *)
-Theorem C18_merge_split_id_no_empty :
-  forall mx b n d, 0 < b -> 0 < n -> uniform n d -> no_empty d = true -> merge_all (gen mx b d) = Some d.
-Proof. exact merge_split_id_no_empty. Qed.
-Print Assumptions C18_merge_split_id_no_empty.
+(* the model writes sys.maxsize as "the total number of batches of all arrays"; the generator run
+   with ANY bound big that is not smaller than the number of batches yields the same pieces *)
+Theorem C18_bound_irrelevant :
+  forall big mx b n d, 0 < n -> uniform n d -> has_leaf d = true -> nbatches n b <= big ->
+    gen big b d = data_split mx b d.
+Proof. exact bound_irrelevant. Qed.
+Print Assumptions C18_bound_irrelevant.
 
-(* the MAX_ITER condition holds whenever the sample has at most MAX_ITER rows *)
 Theorem C18_nbatches_le : forall n b, 0 < b -> nbatches n b <= n.
 Proof. exact nbatches_le. Qed.
 Print Assumptions C18_nbatches_le.
@@ -37,7 +38,7 @@ Print Assumptions C18_chunks_concat.
 (* batch_call f = f for every function that commutes with merging ... *)
 Theorem C18_batch_call_eq :
   forall fn mx b n d, commutes fn ->
-    0 < b -> 0 < n -> uniform n d -> has_leaf d = true -> tuples_ok d = true -> nbatches n b <= mx ->
+    0 < b -> 0 < n -> uniform n d -> has_leaf d = true ->
     batch_call fn mx b d = Some (fn d).
 Proof. exact batch_call_eq. Qed.
 Print Assumptions C18_batch_call_eq.
@@ -96,46 +97,55 @@ Theorem C18_dat_order_inverse :
 Proof. exact dat_order_inverse. Qed.
 Print Assumptions C18_dat_order_inverse.
 
-(* lazy = eager, LazyCall without extra entries.  With extra entries the statement
+(* lazy = eager, LazyCall without extra entries.  The hypothesis nbatches <= mx is needed on the
+   current tree (see C18_lazy_max_iter_refuted).  With extra entries the statement
    C18_lazy_full_statement below is tied by the correspondence only. *)
 Theorem C18_lazy_eq_eager_partial :
   forall fn mx b n x, commutes fn ->
-    0 < b -> 0 < n -> uniform n x -> has_leaf x = true -> tuples_ok x = true -> nbatches n b <= mx ->
+    0 < b -> 0 < n -> uniform n x -> has_leaf x = true -> nbatches n b <= mx ->
     merge_all (lazy_batches fn mx b x empty_dict) = Some (lazy_eval fn x empty_dict).
 Proof. exact lazy_eq_eager. Qed.
 Print Assumptions C18_lazy_eq_eager_partial.
 Definition C18_lazy_full_statement : Prop :=
   forall fn mx b n x extra, commutes fn ->
-    0 < b -> 0 < n -> uniform n x -> has_leaf x = true -> tuples_ok x = true -> nbatches n b <= mx ->
-    uniform n extra -> tuples_ok extra = true ->
+    0 < b -> 0 < n -> uniform n x -> has_leaf x = true -> uniform n extra ->
     merge_all (lazy_batches fn mx b x extra) = Some (lazy_eval fn x extra).
-(* missing: merging position-wise commutes with {**a, **b} when all f(x_i) have the same keys *)
+(* missing: merging position-wise commutes with {**a, **b} when all f(x_i) have the same keys;
+   and false as it stands for extra = {} with more than MAX_ITER batches: *)
+(* FINDING (current tree): LazyCall.__iter__ splits self.extra on its own; an empty extra holds no
+   array, so it yields MAX_ITER copies only and zip() stops the iteration after MAX_ITER batches *)
+Theorem C18_lazy_max_iter_refuted :
+  exists fn mx b x, commutes fn /\ uniform 3 x /\ has_leaf x = true /\
+    merge_all (lazy_batches fn mx b x empty_dict) <> Some (lazy_eval fn x empty_dict).
+Proof. exact lazy_max_iter_refuted. Qed.
+Print Assumptions C18_lazy_max_iter_refuted.
 
-(* ---- where the hypotheses bite (observations / findings on the current tree) ---- *)
+(* ---- observation ---- *)
 (* F10: a structure without any array splits into MAX_ITER empty pieces *)
-Theorem C18_split_no_array : forall mx b, gen mx b (Node KDict FNil) = repeat (Node KDict FNil) mx.
+Theorem C18_split_no_array : forall mx b, data_split mx b (Node KDict FNil) = repeat (Node KDict FNil) mx.
 Proof. exact split_no_array. Qed.
 Print Assumptions C18_split_no_array.
-(* an empty tuple anywhere in the data: data_split yields nothing, the sample vanishes *)
-Theorem C18_empty_tuple_refuted :
-  exists d, uniform 2 d /\ has_leaf d = true /\ merge_all (gen 1000 1 d) = None.
-Proof. exact split_empty_tuple_refuted. Qed.
-Print Assumptions C18_empty_tuple_refuted.
-(* more than MAX_ITER batches together with an empty container: the surplus rows are dropped *)
-Theorem C18_max_iter_refuted :
-  exists mx d, uniform 3 d /\ has_leaf d = true /\ tuples_ok d = true /\ merge_all (gen mx 1 d) <> Some d.
-Proof. exact split_max_iter_refuted. Qed.
-Print Assumptions C18_max_iter_refuted.
-Definition C18_full_statement : Prop :=
-  forall mx b n d, 0 < b -> 0 < n -> uniform n d -> has_leaf d = true -> merge_all (gen mx b d) = Some d.
+
+(* ---- why the repairs 8ca0a85 / 6a76cf5 matter: the generator as it was (gen_old) ---- *)
+Example C18_old_empty_tuple_vanishes :
+  exists d, uniform 2 d /\ has_leaf d = true /\ merge_all (gen_old 1000 1 d) = None.
+Proof. exact old_split_empty_tuple. Qed.
+Example C18_old_max_iter_drops_rows :
+  exists mx d, uniform 3 d /\ has_leaf d = true /\ merge_all (gen_old mx 1 d) <> Some d.
+Proof. exact old_split_max_iter. Qed.
+Example C18_new_same_structures :
+  let d1 := Node KDict (FCons 0%Z (Leaf [1%Z; 2%Z]) (FCons 1%Z (Node KTuple FNil) FNil)) in
+  let d2 := Node KDict (FCons 0%Z (Leaf [1%Z; 2%Z; 3%Z]) (FCons 1%Z (Node KDict FNil) FNil)) in
+  merge_all (data_split 1000 1 d1) = Some d1 /\ merge_all (data_split 2 1 d2) = Some d2.
+Proof. exact new_split_examples. Qed.
 
 (* non-vacuity *)
 Example C18_example_tree :
   let d := Node KDict (FCons 0%Z (Leaf [1; 2; 3; 4; 5]%Z)
                       (FCons 1%Z (Node KList (FCons 0%Z (Leaf [11; 12; 13; 14; 15]%Z) (FCons 0%Z (Node KDict FNil) FNil)))
-                      (FCons 2%Z (Node KList FNil) FNil))) in
-  uniform 5 d /\ has_leaf d = true /\ tuples_ok d = true /\ nbatches 5 2 = 3 /\
-  length (gen 1000 2 d) = 3 /\ merge_all (gen 1000 2 d) = Some d /\ merge_all (gen 1000 7 d) = Some d.
+                      (FCons 2%Z (Node KTuple FNil) FNil))) in
+  uniform 5 d /\ has_leaf d = true /\ nbatches 5 2 = 3 /\
+  length (data_split 1000 2 d) = 3 /\ merge_all (data_split 1000 2 d) = Some d /\ merge_all (data_split 1000 7 d) = Some d.
 Proof. vm_compute. repeat split; auto. Qed.
 Example C18_example_dat :
   save 0%Z [[1; 2; 3]; [11; 12; 13]]%Z = [1; 11; 2; 12; 3; 13]%Z /\
